@@ -317,7 +317,34 @@ class StrInterp:
                 return None
         if isinstance(node, ast.Call) and isinstance(node.func, ast.Name) and node.func.id == "str":
             return AStr((W, DASH), (W, DASH), (W,), False)  # str(int)
+        if isinstance(node, ast.JoinedStr):
+            res = AStr.const("")
+            for v in node.values:
+                if isinstance(v, ast.Constant) and isinstance(v.value, str):
+                    part = AStr.const(v.value)
+                elif isinstance(v, ast.FormattedValue) and v.format_spec is None and v.conversion in (-1, 115):
+                    part = self.ev(v.value)
+                    if part is None and isinstance(v.value, ast.Name) and self._is_int_param(v.value.id):
+                        part = AStr((W, DASH), (W, DASH), (W,), False)  # an int rendered by str()
+                else:
+                    part = None
+                if part is None:
+                    return None
+                res = res.concat(part)
+            return res
+        if isinstance(node, ast.Subscript) and isinstance(node.slice, ast.Constant) and isinstance(node.slice.value, int) \
+                and isinstance(node.value, ast.Call) and isinstance(node.value.func, ast.Attribute) and node.value.func.attr == "groups" \
+                and isinstance(node.value.func.value, ast.Name):
+            m = self.vars.get(node.value.func.value.id)
+            if isinstance(m, tuple) and m[0] == "match" and node.slice.value >= 0:
+                return self.group(m, node.slice.value + 1)
         return None
+
+    def _is_int_param(self, name):
+        for a in self.fn.args.args:
+            if a.arg == name and a.annotation is not None and norm(a.annotation) == "int":
+                return True
+        return False
 
     def group(self, m, k):
         _, kind, tree, src, srcvar = m
@@ -478,6 +505,14 @@ def _interp_path(ctx, fn, p, inputs, flags):
                 continue
             r = si.ev(v)
             si.vars[t] = r
+        elif s.kind == "stmt" and isinstance(st, ast.Assign) and len(st.targets) == 1 and isinstance(st.targets[0], (ast.Tuple, ast.List)) \
+                and isinstance(st.value, ast.Call) and isinstance(st.value.func, ast.Attribute) and st.value.func.attr == "groups" \
+                and isinstance(st.value.func.value, ast.Name) and isinstance(si.vars.get(st.value.func.value.id), tuple):
+            # a, b, c = match.groups()
+            m_ = si.vars[st.value.func.value.id]
+            for i_, t_ in enumerate(st.targets[0].elts):
+                if isinstance(t_, ast.Name):
+                    si.vars[t_.id] = si.group(m_, i_ + 1)
         elif s.kind == "test" and s.label in ("true", "false"):
             _refine(ctx, fn, si, st.test, s.label == "true", flags)
     ret = None
